@@ -33,7 +33,7 @@ type c18FlowRun struct {
 	loops  []*c18Loop
 	preds  map[*cfg.Block][]*cfg.Block
 	sortIn map[*cfg.Block]*ast.CallExpr
-	retVal map[*ast.CallExpr]c18UF // facts of the slice a package function returned at this call
+	retVal map[*ast.CallExpr]c18Ret // what a package function returned at this call
 }
 
 func (fr *c18FlowRun) onlyHead(l *c18Loop) bool {
@@ -84,15 +84,56 @@ func (fr *c18FlowRun) value(e ast.Expr, st c18Flow) c18UF {
 		return uf
 	}
 	if call, ok := e.(*ast.CallExpr); ok {
-		if uf, ok := fr.retVal[call]; ok {
-			uf.grp = nil // locals of the callee are out of scope
-			return uf
+		if rv, ok := fr.retVal[call]; ok && !rv.errPath {
+			return rv.uf
 		}
 		if tv, ok := fr.env.c.info.Types[call.Fun]; ok && tv.IsType() && len(call.Args) == 1 {
 			return fr.value(call.Args[0], st)
 		}
 	}
 	return c18UF{}
+}
+
+// storeMulti handles `v, err := load(...)`: the slice component gets the facts of the callee's value returns,
+// conditional on err being nil when the callee also has error returns (`return nil, err`).
+func (fr *c18FlowRun) storeMulti(n ast.Node, lhs []ast.Expr, rhs ast.Expr, st c18Flow) c18Flow {
+	env := fr.env
+	call, ok := ast.Unparen(rhs).(*ast.CallExpr)
+	if !ok {
+		return st
+	}
+	rv := fr.retVal[call] // zero when the callee was not analysed
+	var errv types.Object
+	for _, l := range lhs {
+		if id, ok := ast.Unparen(l).(*ast.Ident); ok && id.Name != "_" {
+			if o := objOf(env.c.info, id); o != nil && types.Identical(o.Type(), types.Universe.Lookup("error").Type()) {
+				errv = o
+			}
+		}
+	}
+	for _, l := range lhs {
+		id, ok := ast.Unparen(l).(*ast.Ident)
+		if !ok {
+			continue
+		}
+		v := env.slot(fr.fd, id)
+		if v == nil || v != objOf(env.c.info, id) {
+			continue
+		}
+		uf := rv.uf
+		if rv.errPath {
+			if errv == nil {
+				uf = c18UF{} // the error is discarded: the nil slice of the error path may be used
+			}
+			uf.errv = errv
+		}
+		if v == env.c.table {
+			env.writes[n] = true
+			env.reach = true
+		}
+		st = st.leave(v).with(v, uf)
+	}
+	return st
 }
 
 // store handles `v = e` / `v := e` / `var v = e` for a tracked slice variable v.
@@ -140,6 +181,8 @@ func (fr *c18FlowRun) transfer(b *cfg.Block, st c18Flow) c18Flow {
 				for i := range s.Lhs {
 					st = fr.store(s, s.Lhs[i], s.Rhs[i], st)
 				}
+			} else if len(s.Rhs) == 1 {
+				st = fr.storeMulti(s, s.Lhs, s.Rhs[0], st)
 			}
 		case *ast.ValueSpec:
 			if len(s.Names) == len(s.Values) {
